@@ -525,7 +525,9 @@ func c19Record(rec *evid.Rec, c c19Case, res c19Result, how string) {
 // TestC19Write: wsjson.Write sends exactly one text message that is JSON-equivalent to the value.
 type c19BadMarshaler struct{}
 
-func (c19BadMarshaler) MarshalJSON() ([]byte, error) { return nil, errors.New("refuses to be marshalled") }
+func (c19BadMarshaler) MarshalJSON() ([]byte, error) {
+	return nil, errors.New("refuses to be marshalled")
+}
 
 func TestC19Write(t *testing.T) {
 	rec := evid.For("C19")
